@@ -47,6 +47,17 @@ def confirm(prop, kf, ev):
     return lines
 
 
+def try_search(prop, violations, cfg):
+    searcher = cfg.PROPS[prop].get('search')
+    if not searcher:
+        return None
+    try:
+        import importlib
+        return importlib.import_module(searcher).search(prop, violations)
+    except Exception:
+        return None
+
+
 def write_replay(prop, violations, cfg, ev):
     global LAST_REPLAY_HAS_INPUT
     d = os.path.join(VERIF, 'build', 'replays')
